@@ -553,6 +553,14 @@ def _r3_r4(ck: Checker, prog: Program):
                 raise AnalysisError(f"{fq}: the number of windows produced by {it} is not a whole expression")
             W = cnt
             start_j = sp.expand(first + J * stride)
+        elif getattr(getattr(it, "func", None), "__name__", "") == "islice" and len(it.args) == 2 \
+                and getattr(getattr(it.args[0], "func", None), "__name__", "") == "count" and len(it.args[0].args) <= 2:
+            # the first n values of the arithmetic progression count(first, stride)
+            cargs = list(it.args[0].args)
+            first = cargs[0] if cargs else sp.Integer(0)
+            stride = cargs[1] if len(cargs) == 2 else sp.Integer(1)
+            W = it.args[1]
+            start_j = sp.expand(first + J * stride)
         else:
             raise AnalysisError(f"{fq}: construction of the window list not recognised (iterates {it})")
         a, b = a_.subs(var, start_j), b_.subs(var, start_j)
